@@ -15,6 +15,12 @@ checks = {
    text='Concurrent multi-client histories (versions v3/v4/v5/DSE, none/lz4/snappy) of USE variants and data requests; every data reply echoes keyspace/version/compression of the backend connection it ran on, compared with the client model in send order.', ref='2/C07'),
  'C08': dict(cat='exploration', tech='runtime monitoring: history oracle over merged client/backend logs (UNPREPARED never reaches the client; re-PREPARE text, acceptability and fail-over)',
    text='All subsets of forgetful hosts for 2-3 hosts x compression, batch children, v3 clients, hosts added after start-up, cross-compression/cross-version prepare/execute, failing re-prepares.', ref='2/C08'),
+ 'C14': dict(cat='exploration', tech='runtime monitoring: exactly-once counting of uniquely identified events over recorded client frames, sentinel-event logical barrier',
+   text='Histories of connect/register(subsets)/disconnect with bursts of schema, topology and status events, concurrent register/disconnect during bursts, control-connection failover between bursts and two proxies on one backend; per (client, event id) delivery counts are compared with must/may/never target sets.', ref='2/C14'),
+ 'C15': dict(cat='exploration', tech='runtime monitoring: set-model oracle over exhaustively enumerated event histories; porcupine linearizability check of recorded concurrent histories',
+   text='All well-formed bootstrap/add/remove histories over <=5 hosts up to length 7 (quick) / 9 (thorough) with fresh, held and partially consumed plans; counter-wrap via the tag-guarded preset and, in thorough, 2^32+10 real NewQueryPlan calls; concurrent histories checked with porcupine against a 15-line model.', ref='2/C15'),
+ 'C16': dict(cat='fault_enumeration', tech='runtime monitoring: backend-side observation of refresh/reconnect events, recording ReconnectPolicy, bounds oracle on the backoff calculator, outage/readiness sampled at known states',
+   text='Topology sequences (add/remove/restart, failed USE earlier) with routing checked after each observable refresh; kill/mute faults on pooled and control connections, single and simultaneous; backoff calculator grid; OutageDuration() and /readiness (through proxy.Run) at states the harness knows.', ref='2/C16'),
  'C19': dict(cat='exploration', tech='runtime monitoring: harness TLS servers logging SNI, client certificate, handshake result and application bytes; accept/reject decided by construction of the chain',
    text='Real astra package end to end (bundle zip, metadata HTTPS, node connections through ConnectClient/Handshake) against 9 chain kinds x generated names/ids x TLS 1.2/1.3.', ref='2/C19'),
 }
@@ -26,7 +32,7 @@ m = {
   "guard": "verif",
   "enable": "go build -tags verif (bin/check builds /verif/harness, whose go.mod replaces github.com/datastax/cql-proxy with /repo, so /repo's working tree is recompiled with the hooks on)",
   "baseline_off_cmd": "cd /repo && GOFLAGS=-mod=mod GOPROXY=off go test -json -vet=off -count=1 -timeout 25m ./...",
-  "source_commits": ["bcdd8c1"],
+  "source_commits": ["bcdd8c1", "233dc92"],
   "add_only": True,
  },
  "engines": [{"name": "verif", "path": "harness/cmd/verif", "serves_properties": sorted(checks), "kind_free_text": "Go harness: supervisor + worker child processes running the real proxy in-process (build tag verif) or as a subprocess against a scriptable fake Cassandra; offline checkers over recorded event histories"}],
